@@ -57,8 +57,12 @@ Record view := mkV { varr : nat; voff : nat; vlen : nat; vcap : nat }.
 
 Definition arr_of (h : sheap) (v : view) : list Z := nth (varr v) h [].
 Definition cells (h : sheap) (v : view) : list Z := firstn (vlen v) (skipn (voff v) (arr_of h v)).
-Definition set_nth {A} (l : list A) (i : nat) (x : A) : list A :=
-  if (i <? length l)%nat then firstn i l ++ x :: skipn (S i) l else l.
+Fixpoint set_nth {A} (l : list A) (i : nat) (x : A) : list A :=
+  match l, i with
+  | [], _ => []
+  | _ :: t, O => x :: t
+  | y :: t, S i' => y :: set_nth t i' x
+  end.
 Definition write_at (a : list Z) (i : nat) (xs : list Z) : list Z :=
   firstn i a ++ xs ++ skipn (i + length xs) a.
 
